@@ -1,4 +1,5 @@
 import CssVerif.Model.NsShare
+import CssVerif.Model.NsCalls
 /-!
 Driver for C15 (stateful): one sheet; every operation replies with its outcome and the canonical state.
 
@@ -15,6 +16,8 @@ requests
   wgrab <side> <i> <ssels> | wshare <side> <idx> <inorder> | wobjsel <ssels>
                                     reply: `<outcome> A:<state of A> B:<state of B> O=<owner a|b|n>:<index in A|->:<index in B|->`
   resolve <dict> <ssel>             stateless: a detached Selector((text, dict))
+  calls <dict> <calls>              stateless: the calls of New.append (`+`-joined: `p<ps>` prefix | `c:<hex>` comment |
+                                    `n:<k>:<name>` | `o:<val>:<ser>` | `x`); reply `ok <items and c:<hex>, +-joined>` | `err:Name`
   ser <dict> <sel>                  stateless
 
 encodings (strings are dotted hex, `-` = empty)
@@ -264,6 +267,23 @@ def parseWOp (ws : List String) : Option WOp :=
   | ["wobjsel", sels] => (parseSSels sels).map .objSel
   | _ => none
 
+def parseCall (w : String) : Option Call :=
+  match w.splitOn ":" with
+  | ["x"] => some .bad
+  | ["c", c] => (decCps c).map .comment
+  | ["o", v, s] => match decCps v, decCps s with
+    | some v, some s => some (.other v s)
+    | _, _ => none
+  | ["n", k, n] => match parseK k, decCps n with
+    | some k, some n => some (.name k n)
+    | _, _ => none
+  | [one] => if one.startsWith "p" then (parsePs (one.drop 1).toString).map .pfx else none
+  | _ => none
+
+def showEmit : Emit → String
+  | .item x => showItem x
+  | .comment c => "c:" ++ encCps c
+
 def handle (st : Sheet × World) (line : String) : (Sheet × World) × String :=
   let s := st.1
   match words line with
@@ -276,6 +296,11 @@ def handle (st : Sheet × World) (line : String) : (Sheet × World) × String :=
     | _, _ => (st, "bad-op")
   | ["ser", d, sel] => match parseDict d, parseRSel sel with
     | some d, some sel => (st, "ok " ++ encCps (serSel d sel))
+    | _, _ => (st, "bad-op")
+  | ["calls", d, cs] => match parseDict d, parseList "+" parseCall cs with
+    | some d, some cs => match runCalls d none cs with
+      | .ok ys => (st, "ok " ++ "+".intercalate (ys.map showEmit))
+      | .error e => (st, "err:" ++ showErr e)
     | _, _ => (st, "bad-op")
   | ws => match parseOp ws with
     | some op =>
